@@ -305,6 +305,13 @@ def sig_matches(sig, desc):
 def _run_shard(args):
     modname, spec, seed, tier, active = args
     try:
+        return _run_shard_inner(modname, spec, seed, tier, active)
+    finally:
+        env.cleanup_now()
+
+
+def _run_shard_inner(modname, spec, seed, tier, active):
+    try:
         import importlib
         mod = importlib.import_module(modname)
         t0 = time.time()
@@ -345,6 +352,7 @@ def replay_shard(case):
 def run_property(mod, tier, seed, nproc=None, only_shards=None):
     prop = mod.ID
     t0 = time.time()
+    env.sweep_stale()
     out_lines = []
     violations = []
 
